@@ -22,7 +22,11 @@ func checkC01(c *Ctx, r *Report) {
 	r.exhaustive = false
 	checkQRAlnumPair(c, r)
 	checkBitArrayHistories(c, r) // the header and data bits are assembled with AppendBitArray / AppendBits (same obligations as under C16)
-	checkECIRegistry(c, r)        // the ECI designator written is the registered first value, which fits the one byte appendECI writes (also C15)
+	checkECIRegistry(c, r)       // the ECI designator written is the registered first value, which fits the one byte appendECI writes (also C15)
+	checkWriterAcceptsContents(c, r, "qrcode", "QRCodeWriter.Encode", "BarcodeFormat_QR_CODE")
+	checkBlackPointBilevel(c, r) // the rendered image is read back at every requested size: also when the sampled rows miss the symbol (also C17)
+	checkHintMapsReadOnly(c, r)  // a hints map that is reused reads the next symbol as it read the first (also C18)
+	checkECLevelReported(c, r)   // "reporting the same error-correction level": the level's way from the format bits to the result metadata
 	checkQRSegments(c, r)
 	checkQRHeader(c, r)
 	checkQRCounts(c, r)
@@ -1032,7 +1036,7 @@ func checkPureAxis(c *Ctx, r *Report, targets [][2]string) {
 
 // S-MODESEL: the mode chosen for a content can hold it
 func checkQRChooseMode(c *Ctx, r *Report) {
-	r.Rule("S-MODESEL", "chooseMode (without the Shift_JIS hint), folded for the empty string, every single byte and every pair of a byte with a representative of each character class in both orders, returns numeric exactly for all-digit content, alphanumeric exactly for content of the 45 ISO characters with at least one non-digit, and byte mode otherwise - a mode is never selected that cannot hold a character of the content", 1)
+	r.Rule("S-MODESEL", "chooseMode (without the Shift_JIS hint), folded for the empty string, every single byte and every pair of a byte with a representative of each character class in both orders, and texts of characters above U+007F whose code points end in the byte of a digit or an alphanumeric character, returns numeric exactly for all-digit content, alphanumeric exactly for content of the 45 ISO characters with at least one non-digit, and byte mode otherwise - a mode is never selected that cannot hold a character of the content", 1)
 	fd, p := c.funcDeclOf("qrcode/encoder", "chooseMode")
 	key := "qrcode/encoder.chooseMode"
 	if fd == nil {
@@ -1076,6 +1080,9 @@ func checkQRChooseMode(c *Ctx, r *Report) {
 			inputs = append(inputs, string([]byte{byte(b), rp}), string([]byte{rp, byte(b)}))
 		}
 	}
+	// well-formed characters above U+007F whose code point ends in the byte of an alphanumeric character or a digit
+	// (U+0433 ends in '3', U+0141 in 'A', U+0131 in '1'): a classification by the low byte of the rune takes them for it
+	inputs = append(inputs, "\u0433", "\u0141\u0150", "\u0131", "A\u0433", "\u0433\u0434\u0435", "7\u0141", "\u0131\u0132", "\u0433 \u0435\u0434\u0430")
 	bad := ""
 	for _, in := range inputs {
 		h := &rpf{unroll: 100, env: env}
